@@ -200,11 +200,12 @@ def conformance(graph, on_v):
 # ----------------------------------------------------------------- engine C ---------------
 def adaptive_item(item, res, on_v):
     n, dom, variant = item["n"], item["dom"], item["variant"]
-    a = {"I01": L.I01, "SQ": L.SQ, "C_t": L.C_MOVE}[dom]
+    a = {"I01": L.I01, "SQ": L.SQ, "C_t": L.C_MOVE, "C_t2": L.C_MOVE}[dom]
     fv = sorted(G.free_vars(a))
-    prm = Bd.params_points({v: [0.5] for v in fv}) if fv else Points.empty()
-    box = G.ref_box(a, {v: np.array([[0.5]]) for v in fv})[0]
-    losses = list(itertools.product([0.0, 1.0, 2.0], repeat=n))
+    rows = [0.0, 1.0] if dom == "C_t2" else [0.5]          # C_t2: two parameter rows, n points each
+    prm = Bd.params_points({v: rows for v in fv}) if fv else Points.empty()
+    nloss = n * (len(rows) if fv else 1)
+    losses = list(itertools.product([0.0, 1.0, 2.0], repeat=nloss))
     ratios = [0.0, 0.25, 0.5, 1.0] if variant == "threshold" else ["NET", "ZERO", "ONE", "HALF"]
     S = tp.samplers
     for l2 in losses:
@@ -272,7 +273,10 @@ def adaptive_item(item, res, on_v):
                 D = sum(d for _, d in G.space_vars(a))
                 vals = {G.space_vars(a)[0][0]: P3[:, :D].double().numpy()}
                 for v in fv:
-                    vals[v] = np.full((len(P3), 1), 0.5)
+                    vals[v] = np.repeat(np.asarray(rows, dtype=np.float64), n).reshape(-1, 1)     # row i owns points i*n..(i+1)*n-1
+                    if not np.allclose(P3[:, D:].double().numpy(), vals[v]):
+                        on_v("C15|adaptive|parameter-columns|%s" % variant, "%s sampler, n=%d, %d parameter rows: parameter column after three calls is %s" % (
+                            variant, n, len(rows), P3[:, D:].reshape(-1).tolist()))
                 if not G.member(a, vals, 1e-4).all():
                     on_v("C15|adaptive|outside|%s" % variant, "%s sampler returned a point outside the domain" % variant)
                 else:
@@ -447,6 +451,10 @@ def items(tier):
             for variant in ("threshold", "random"):
                 out.append({"name": "adaptive|%s|%s|n=%d" % (variant, dom, n), "kind": "adaptive", "n": n, "dom": dom,
                             "variant": variant, "tier": tier, "cost": n})
+    for variant in ("threshold", "random"):
+        out.append({"name": "adaptive|%s|C_t2|n=2" % variant, "kind": "adaptive", "n": 2, "dom": "C_t2", "variant": variant, "tier": tier, "cost": 4})
+        if tier == "thorough":
+            out.append({"name": "adaptive|%s|C_t2|n=3" % variant, "kind": "adaptive", "n": 3, "dom": "C_t2", "variant": variant, "tier": tier, "cost": 6})
     for ck in COND_KINDS:
         for variant in ("threshold", "random"):
             for n in (3, 6):
